@@ -71,7 +71,7 @@ func runC16(res *Result, tier string, seed int64, replay string) {
 	}
 	// shapes in which "filter in place" idioms would overwrite the tree: an mj-class whose name is not written last, an invalid
 	// attribute after valid ones, defaults and inline rules the renderer reads while rendering
-	docs = append(docs, struct{ name, src string }{"explicit:head-reading", cacheDocs[len(cacheDocs)-1]})
+	docs = append(docs, struct{ name, src string }{"explicit:head-reading", cacheDocs[headReadingDoc]})
 	docs = append(docs, struct{ name, src string }{"explicit:invalid-after-valid", `<mjml><mj-body><mj-section padding="1px" bogus-a="x" full-width="full-width" bogus-b="y"><mj-column width="50%" nope="1"><mj-image src="i.png" alt="a" href="u" zzz="1" title="t"/></mj-column></mj-section></mj-body></mjml>`})
 	// children written in an order a renderer might "normalise": text before title, several titles, links and images with raw
 	// content between them, duplicated and out-of-order social networks, head elements after the body
